@@ -265,7 +265,24 @@ def run(chk, tier):
     e0 = Engine(prog, inline_depth=0)
     st = St()
     outs = e0.run(fu, [e0.sym_ref(st, 'self'), e0.sym_ref(st, 'round')], st)
-    CAP = r'Lt\(len\(call:FlowRegistry::flows\(.*registry.*\)\), .*max_flows.*\)'
+    CAP = r'(Lt|Le|Gt|Ge)\((.*), (.*)\)'
+
+    def cap_decision(d):
+        """-> (True iff the trace established len(flows) < max_flows, the raw atom) or (None, None)"""
+        for a, v in d:
+            m = re.fullmatch(CAP, a)
+            if not m or 'max_flows' not in a or 'FlowRegistry::flows' not in a:
+                continue
+            op, l, r_ = m.groups()
+            len_left = 'FlowRegistry::flows' in l
+            if not isinstance(v, int):
+                continue
+            # normalise to a relation "len OP max"
+            rel = op if len_left else {'Lt': 'Gt', 'Le': 'Ge', 'Gt': 'Lt', 'Ge': 'Le'}[op]
+            if not v:
+                rel = {'Lt': 'Ge', 'Le': 'Gt', 'Gt': 'Le', 'Ge': 'Lt'}[rel]
+            return rel, a
+        return None, None
     ok4 = ok5 = ok6 = True
     why4 = why5 = why6 = ''
     caps = set()
@@ -273,8 +290,11 @@ def run(chk, tier):
         if o.kind != 'return':
             continue
         d = [(vshow(a), v) for a, v, _ in o.st.decisions]
-        cap = [v for a, v in d if re.fullmatch(CAP, a)]
+        rel, cap_atom = cap_decision(d)
+        cap = [] if rel is None else [1 if rel == 'Lt' else 0]
         regs = user_calls(o, r'FlowRegistry::register$')
+        if regs and rel not in (None, 'Lt'):
+            ok4, why4 = False, 'a flow is created on a trace that only established len(flows) %s max_flows (%s): the registry can grow to max_flows + 1' % ({'Le': '≤', 'Ge': '≥', 'Gt': '>'}[rel], cap_atom[:80])
         looks = user_calls(o, r'FlowRegistry::lookup$')
         upd = [[vshow(x) for x in c[7]] for c in user_calls(o, r'State::update_trace_flow$')]
         dflt_upd = [u for u in upd if u[1] == 'call:State::default_flow_id()']
@@ -296,7 +316,7 @@ def run(chk, tier):
             found = [v for a, v in d if re.search(r'FlowRegistry::lookup', a)]
             if found and found[-1] == 1 and not (len(flow_upd) == 1 and 'FlowRegistry::lookup' in flow_upd[0][1]):
                 ok6, why6 = False, 'a flow found at capacity does not receive the round'
-    if caps != {0, 1}:
+    if caps != {0, 1} and ok4:
         ok4, why4 = False, 'update_from_round does not test the flow cap (decisions seen %s)' % caps
     for rid, okv, why, msg in (('R4', ok4, why4, 'register only under len < max_flows, at most once'), ('R5', ok5, why5, 'default flow updated exactly once on every trace'),
                                ('R6', ok6, why6, 'registry consulted on every trace; the matching flow receives the round')):
